@@ -877,7 +877,8 @@ std::string sqf::parser::preprocessor::impl_default::instance::parse_ppinstructi
             log(err::UnexpectedIfdef(fileinfo.to_diag_info()));
         }
         auto res = m_macros.find(static_cast<std::string>(line));
-        current_file_scope().conditions.push_back({ res != m_macros.end(), fileinfo, fileinfo });
+        bool parent_allow_write = allow_write();
+        current_file_scope().conditions.push_back({ parent_allow_write && res != m_macros.end(), fileinfo, fileinfo, parent_allow_write });
         return "\n";
     }
     else if (inst == "IFNDEF")
@@ -887,7 +888,8 @@ std::string sqf::parser::preprocessor::impl_default::instance::parse_ppinstructi
             log(err::UnexpectedIfndef(fileinfo.to_diag_info()));
         }
         auto res = m_macros.find(static_cast<std::string>(line));
-        current_file_scope().conditions.push_back({ res == m_macros.end(), fileinfo, fileinfo });
+        bool parent_allow_write = allow_write();
+        current_file_scope().conditions.push_back({ parent_allow_write && res == m_macros.end(), fileinfo, fileinfo, parent_allow_write });
         return "\n";
     }
     else if (inst == "ELSE")
@@ -898,7 +900,11 @@ std::string sqf::parser::preprocessor::impl_default::instance::parse_ppinstructi
             log(err::UnexpectedElse(fileinfo.to_diag_info()));
             return "";
         }
-        current_file_scope().conditions.back().allow_write = !current_file_scope().conditions.back().allow_write;
+        // inside an inactive section both branches of a nested conditional stay inactive
+        if (current_file_scope().conditions.back().parent_allow_write)
+        {
+            current_file_scope().conditions.back().allow_write = !current_file_scope().conditions.back().allow_write;
+        }
         return "\n";
     }
     else if (inst == "ENDIF")
